@@ -20,7 +20,10 @@ def main():
     ctx = Ctx(a.prop.upper(), a.tier, seed, level=getattr(mod, "LEVEL", "proof"))
     if a.replay:
         if hasattr(mod, "replay"):
-            sys.exit(mod.replay(ctx, a.replay))
+            rc = mod.replay(ctx, a.replay)
+            if rc in (0, 1):
+                sys.exit(rc)
+            print("no dedicated replay for this key: re-running the whole check")
         # generic replay: re-run the check and report whether the recorded key fails again
         import json
         rec = json.load(open(a.replay))
